@@ -414,6 +414,7 @@ impl Check {
                         config.max_global_rejects = 1 << 20;
                         let mut runner = TestRunner::new(config);
                         let failed_here = AtomicBool::new(false);
+                        let first: Mutex<Option<(C, Failure)>> = Mutex::new(None);
                         let strat = strategy();
                         let res = runner.run(&strat, |case| {
                             if stop.load(Ordering::Relaxed) && !failed_here.load(Ordering::Relaxed) {
@@ -435,6 +436,7 @@ impl Check {
                             match self.record(sub, &case, &rep) {
                                 None => Ok(()),
                                 Some(f) => {
+                                    *first.lock().unwrap() = Some((case.clone(), f.clone()));
                                     failed_here.store(true, Ordering::Relaxed);
                                     stop.store(true, Ordering::Relaxed);
                                     Err(TestCaseError::fail(f.signature))
@@ -448,10 +450,22 @@ impl Check {
                                     Ok(r) => r,
                                     Err(f) => CaseReport::default().fail(f),
                                 };
-                                let f = rep
-                                    .failure
-                                    .unwrap_or_else(|| Failure::new("flaky", "shrunk case did not fail on re-execution"));
-                                found.lock().unwrap().push((w, minimal, f));
+                                match rep.failure {
+                                    Some(f) => found.lock().unwrap().push((w, minimal, f)),
+                                    None => {
+                                        // not reproducible from the shrunk case (free-running threads): keep the
+                                        // case that failed first, with what it observed
+                                        let (case0, f0) = first.lock().unwrap().clone().unwrap_or((
+                                            minimal.clone(),
+                                            Failure::new("unknown", "no first failure recorded"),
+                                        ));
+                                        let f = Failure::new(
+                                            "flaky",
+                                            format!("a case failed once (signature={}: {}) but its shrunk form did not fail on re-execution", f0.signature, f0.message),
+                                        );
+                                        found.lock().unwrap().push((w, case0, f));
+                                    }
+                                }
                             }
                             Err(TestError::Abort(reason)) => {
                                 self.stats
@@ -469,7 +483,10 @@ impl Check {
         found.sort_by_key(|(w, _, _)| *w);
         if let Some((_, case, f)) = found.into_iter().next() {
             if f.signature == "flaky" {
-                self.stats.inconclusive.lock().unwrap().push(f.message);
+                self.violation(&format!("{sub}-unreproduced"), &case, &f);
+                let v = self.stats.violations.lock().unwrap().pop();
+                let path = v.map(|(_, _, p)| p).unwrap_or_default();
+                self.stats.inconclusive.lock().unwrap().push(format!("{} (case saved: {path})", f.message));
             } else {
                 self.violation(sub, &case, &f);
             }
